@@ -19,7 +19,8 @@ RULE = ("Constructor inputs as plain data x one global duration setting (readout
         "default 2,1,1,2): construct_repetition_code_circuit ('full'), ..._simplified ('simplified'), "
         "..._multi_round_circuit ('multi', rounds = distinct counts from 0..5) with distance, data/ancilla bits, cycles, "
         "description route {none, from_chain, from_initial_state, from_connectivity(sub-chain of the three shipped "
-        "layouts)} and refocusing on/off as in C09, and construct_calibration_circuit (QUBIT / QUTRIT, 1..6 qubits on "
+        "layouts), composite description = such a sub-chain with 1-3 excluded gates / an excluded ancilla, which yields "
+        "parking-only gate layers} and refocusing on/off as in C09, and construct_calibration_circuit (QUBIT / QUTRIT, 1..6 qubits on "
         "arbitrary distinct channel indices). duration_grid enumerates all 4^4 settings over {0.5,1,2,3} for a fixed d=2, "
         "3-cycle chain (full constructor, refocusing on) completely; cycle_sweep enumerates cycles 0..6 (thorough 0..8) x "
         "{full, simplified} x refocusing on/off x 3 (thorough 5) fixed duration settings for a d=3 chain. Each case builds the circuit inside the override "
@@ -262,6 +263,32 @@ def _repcode_strategy(ctor, max_d, max_cycles):
     return cases()
 
 
+def strat_composite():
+    """Full constructor with a composite description: a layout sub-chain with excluded gates / qubits, which produces
+    gate layers that hold parking but no two-qubit gate."""
+    from hypothesis import strategies as st
+
+    @st.composite
+    def cases(draw):
+        layout = draw(st.sampled_from(sorted(rep.LAYOUT_CHAINS)))
+        chain = rep.LAYOUT_CHAINS[layout]
+        n_data = (len(chain) + 1) // 2
+        d = draw(st.integers(2, min(4, n_data)))
+        start = draw(st.integers(0, n_data - d))
+        sub = chain[2 * start: 2 * start + 2 * d - 1]
+        edges = [[sub[i], sub[i + 1]] for i in range(len(sub) - 1)]
+        n_ex = draw(st.integers(1, min(3, len(edges))))
+        ex_edges = [edges[i] for i in sorted(draw(st.lists(st.integers(0, len(edges) - 1), min_size=n_ex, max_size=n_ex, unique=True)))]
+        ex_qubits = [draw(st.sampled_from(sub[1::2]))] if draw(st.integers(0, 3)) == 0 else []
+        case = {"ctor": "full", "desc": "composite", "layout": layout, "qubits": sub, "exclude_edges": ex_edges,
+                "exclude_qubits": ex_qubits, "only_required": draw(st.booleans()), "d": d,
+                "data": draw(st.lists(st.integers(0, 1), min_size=d, max_size=d)), "anc": None,
+                "refocus": draw(st.booleans()), "cycles": draw(st.sampled_from([1, 2, 3, 4])),
+                "durations": draw(_durations(st))}
+        return case
+    return cases()
+
+
 def strat_full():
     return _repcode_strategy("full", 5, 8)
 
@@ -324,6 +351,7 @@ def parts():
         Part("repcode_full", body, strategy=strat_full, quick=70, thorough=450),
         Part("repcode_full_large", body, strategy=strat_full_large, quick=0, thorough=60),
         Part("repcode_simplified", body, strategy=strat_simplified, quick=80, thorough=600),
+        Part("repcode_composite", body, strategy=strat_composite, quick=70, thorough=400),
         Part("multi_round", body, strategy=strat_multi, quick=20, thorough=100),
         Part("calibration", body, strategy=strat_calibration, quick=120, thorough=800),
     ]
